@@ -29,6 +29,7 @@ func main() {
 	commands["steps"] = cmdSteps
 	commands["battles"] = cmdBattles
 	commands["rot"] = cmdRot
+	commands["rot-replay"] = cmdRotReplay
 	commands["api"] = cmdAPI
 	commands["asm"] = cmdAsm
 	commands["lx"] = cmdLX
